@@ -172,3 +172,42 @@ func H_C19_op() {
 	}
 	vReach("end")
 }
+
+// H_C19_new: the constructors hand out Decimals carrying the context's
+// precision and rounding mode, holding the argument rounded exactly as the
+// plain setter on such a receiver does (the setters are C14's/C12's business).
+func H_C19_new() {
+	c := mkCtx()
+	// the setters' arithmetic is C14's business: concrete magnitudes, symbolic sign and context mode
+	x := int64(1234567)
+	if vBool("x.neg") {
+		x = -x
+	}
+	u := uint64(18446744073709551615)
+	same := func(d, ref *decimal.Decimal) bool {
+		return vAnd(d.Prec() == uint(c.prec), vAnd(d.Mode() == c.mode, vAnd(d.Cmp(ref) == 0, vAnd(d.Acc() == ref.Acc(), d.Signbit() == ref.Signbit()))))
+	}
+	fresh := func() *decimal.Decimal { return new(decimal.Decimal).SetMode(c.mode).SetPrec(uint(c.prec)) }
+	var ok1, ok2, ok3, ok4, ok5 bool
+	k := vCatch(func() {
+		n := c.New()
+		ok1 = vAnd(n.Prec() == uint(c.prec), vAnd(n.Mode() == c.mode, vAnd(n.IsZero(), !n.Signbit())))
+		ok2 = same(c.NewInt64(x), fresh().SetInt64(x))
+		ok3 = same(c.NewUint64(u), fresh().SetUint64(u))
+		d, succ := c.NewString("-12.75")
+		r, _ := fresh().SetString("-12.75")
+		ok4 = vAnd(succ, same(d, r))
+		d2, succ2 := c.NewString("1_")
+		ok5 = vAnd(!succ2, d2 == nil)
+	})
+	vAssert("C19.nopanic", k == 0)
+	vAssert("C19.new", ok1)
+	vAssert("C19.newint64", ok2)
+	vAssert("C19.newuint64", ok3)
+	vAssert("C19.newstring", vAnd(ok4, ok5))
+	vAssert("C19.noerr", c.err == nil)
+	c0 := New(0, c.mode)
+	c1 := New(uint(c.prec), c.mode)
+	vAssert("C19.ctor", vAnd(c0.Prec() == decimal.DefaultDecimalPrec, vAnd(c0.Mode() == c.mode, vAnd(c1.Prec() == uint(c.prec), c1.Mode() == c.mode))))
+	vReach("end")
+}
